@@ -38,7 +38,7 @@ ASSUMPTIONS = [
 TRUSTED_EXTRA = ["harness/sorted_common.py (generator, stub driver, exact/float twin used only to flag ambiguous cases)"]
 
 COMBOS = [(a, s, e, u, i) for a in ("greedy", "rr") for s in sc.SORTS for e in (False, True) for u in (False, True)
-          for i in ((0.1, 0.5, 1.0) if a == "rr" else (0.5,))]
+          for i in ((0.1, 0.5, 1.0) if a == "rr" else (0.5, 0.5, 0.5))]      # greedy and round robin equally often
 F = fractions.Fraction
 
 
@@ -73,7 +73,7 @@ def gen_cases(rng, n, tier):
     while len(cases) < n:
         a, s, e, u, i = next(it)
         scn = sc.gen_scenario(rng, tier, algo=a, sort=s, est=e, unint=u, inc=i, distinct_keys=True,
-                              user_bounds=rng.random() < 0.2)
+                              user_bounds=rng.random() < 0.25, plenty=0.75)
         cases.append(mk_case(scn))
     return cases
 
